@@ -31,6 +31,7 @@ MIN_REACH = {
     "missing_slots_checked": {"quick": 1200, "thorough": 40000},
     "unsortable_axes_judged": {"quick": 15, "thorough": 300},
     "rejections_checked": {"quick": 20, "thorough": 150},
+    "case_sets_given_as_one_shot_iterators": {"quick": 100, "thorough": 2000},
     "rejections_checked_with_positional_cases": {"quick": 5, "thorough": 40},
 }
 TIME_BUDGET = {"quick": 300, "thorough": 3000}
@@ -60,6 +61,8 @@ def cases(ctx):
             "constants": gens.gen_constants(rng, 2, exclude=names + [a for a, _ in sub]),
             "keyorder_seed": rng.randint(0, 10 ** 6),
             "single_dict": len(cs) == 1 and rng.random() < 0.5,
+            # the container the cases arrive in: the documentation says "iterable"
+            "cases_as": rng.choice(["list", "list", "tuple", "iter", "generator", "zip"]),
         }
         yield c
     # overlap between case arguments and sub-grid arguments must be refused before any call
@@ -102,6 +105,20 @@ def run_case(ctx, case):
     elif case.get("single_dict"):
         spelled_cases = spelled_cases[0]
 
+    how = case.get("cases_as", "list")
+    if isinstance(spelled_cases, list) and how != "list":
+        if how == "tuple":
+            spelled_cases = tuple(spelled_cases)
+        elif how == "iter":
+            spelled_cases = iter(spelled_cases)
+        elif how == "generator":
+            spelled_cases = (c for c in list(spelled_cases))
+        elif how == "zip" and fn_args is not None and isinstance(fn_args, tuple) and len(fn_args) >= 2:
+            spelled_cases = zip(*[[c[i] for c in spelled_cases] for i in range(len(fn_args))])
+        else:
+            spelled_cases = iter(spelled_cases)
+        if how != "tuple":
+            ctx.count("case_sets_given_as_one_shot_iterators")
     loglist = []
     fn = probe.Probe(kind, loglist=loglist)
     opts = {"split": case["split"], "shuffle": case["shuffle"], "verbosity": 0}
